@@ -22,7 +22,14 @@ def parseClass (j : Json) : Except String ClassDef := do
       | .ok (.arr a) => do pure (DVal.list (← a.toList.mapM (·.getInt?)))
       | .ok v => do pure (DVal.int (← v.getInt?))
       | .error e => throw e
-    pure ({ name := ← getStr p "name", default := d, instantiate := ← getBool p "inst", bounds := ← optPair p "bounds" } : ParamDef)
+    let sel : SelKind ← match getOpt p "sel" with
+      | none => pure SelKind.notSel
+      | some v => do
+        match ← v.getStr? with
+        | "choice" => pure SelKind.choice
+        | "named" => pure SelKind.named
+        | k => throw s!"sel {k}"
+    pure ({ name := ← getStr p "name", default := d, instantiate := ← getBool p "inst", bounds := ← optPair p "bounds", sel := sel } : ParamDef)
   let methods ← (← getArr j "methods").toList.mapM fun m => do
     let deps ← (← getArr m "deps").toList.mapM fun d => do
       match ← strs d with
@@ -81,6 +88,7 @@ def parseOp (s : Side) (j : Json) : Except String Op := do
     return .pedit (← resolveRef s (← j.getObjVal? "o")) (← getStr j "p") e
   | "setAttr" => return .setAttr (← resolveRef s (← j.getObjVal? "o")) (← getStr j "name") (← parseArg s (← j.getObjVal? "a"))
   | "mutAttr" => return .mutAttr (← resolveRef s (← j.getObjVal? "o")) (← getStr j "name") (← getInt j "n")
+  | "selAdd" => return .selAdd (← resolveRef s (← j.getObjVal? "o")) (← getStr j "p") (← getInt j "n")
   | "watch" => return .watch (← resolveRef s (← j.getObjVal? "o")) (← getStr j "p") (← resolveRef s (← j.getObjVal? "target")) (← getStr j "cb")
   | o => throw s!"unknown op {o}"
 
@@ -119,6 +127,7 @@ def jObj (o : SObj) : Json := Json.mkObj [
   ("cls", Json.str o.cls),
   ("values", Json.arr (o.values.map fun (n, own, v) => Json.arr #[Json.str n, Json.bool own, jVal v]).toArray),
   ("pcopies", Json.arr (o.pcopies.map fun (n, b, c) => Json.arr #[Json.str n, jOpt jPair b, Json.bool c]).toArray),
+  ("sel", Json.arr (o.sel.map fun (n, own, os, ns) => Json.arr #[Json.str n, Json.bool own, jInts os, jInts ns]).toArray),
   ("attrs", Json.arr (o.attrs.map fun (n, v) => Json.arr #[Json.str n, jVal v]).toArray),
   ("watchers", Json.arr (o.watchers.map fun (n, ws) => Json.arr #[Json.str n, Json.arr (ws.map fun wt =>
       Json.arr #[toJson wt.inst, Json.str wt.kind, toJson wt.owner, Json.str wt.method, jOpt jChanged wt.changed, toJson wt.precedence]).toArray]).toArray),
@@ -174,6 +183,9 @@ def pObj (j : Json) : Except String SObj := do
         let q ← v.getArr?
         pure (some (← q[0]!.getInt?, ← q[1]!.getInt?))
     pure (← a[0]!.getStr?, b, ← a[2]!.getBool?)
+  let sel ← (← getArr j "sel").toList.mapM fun e => do
+    let a ← e.getArr?
+    pure (← a[0]!.getStr?, ← a[1]!.getBool?, ← ints a[2]!, ← ints a[3]!)
   let attrs ← (← getArr j "attrs").toList.mapM fun e => do
     let a ← e.getArr?
     pure (← a[0]!.getStr?, ← pVal a[1]!)
@@ -191,7 +203,7 @@ def pObj (j : Json) : Except String SObj := do
       pure ({ inst := ← q[0]!.getNat?, owner := ← q[1]!.getNat?, method := ← q[2]!.getStr?,
               changed := ← pChanged q[3]!, found := ← q[4]!.getBool? } : SDyn)
     pure (← a[0]!.getStr?, ws)
-  return { cls := ← getStr j "cls", values := values, pcopies := pcopies, attrs := attrs, watchers := watchers, dyn := dyn }
+  return { cls := ← getStr j "cls", values := values, pcopies := pcopies, sel := sel, attrs := attrs, watchers := watchers, dyn := dyn }
 
 def pSnap (j : Json) : Except String Snap := do (← j.getArr?).toList.mapM pObj
 
@@ -226,7 +238,11 @@ def handle (req : Json) : Except String Json := do
   let case ← req.getObjVal? "case"
   let pol ← parsePolicy (← getStr case "policy")
   let classes ← (← getArr case "classes").toList.mapM parseClass
-  let w0 : World := { classes := classes, objs := [], cells := [], nextPid := 1, log := [] }
+  -- the class-level `_objects` / `names` containers of the Selector parameters (declared empty)
+  let selParams : List (Nat × String) := classes.zipIdx.flatMap fun (c, k) =>
+    (c.params.filter (·.sel != .notSel)).map fun d => (k, d.name)
+  let w0 : World := { classes := classes, objs := [], cells := selParams.flatMap (fun _ => [[], []]), nextPid := 1, log := [],
+                      clsSlots := selParams.zipIdx.map fun ((k, n), i) => (k, n, 2 * i, 2 * i + 1) }
   let pre := (← getArr case "pre").toList
   let runPre (s : Side) : Except String Side := pre.foldlM (fun s j => do pure (← exec s j).1) s
   let main ← runPre { w := w0 }
